@@ -273,7 +273,7 @@ def repo_describe():
         return 'unknown'
 
 
-def try_shrink(prop, job, check, key, budget_examples, seed):
+def try_shrink(prop, job, check, key, budget_examples, seed, budget_seconds=30):
     """Use hypothesis.find to search for a smaller case that fails in the same bucket"""
     if job is None or job.kind != 'hyp':
         return None
@@ -281,7 +281,11 @@ def try_shrink(prop, job, check, key, budget_examples, seed):
         import hypothesis
         from hypothesis import settings, HealthCheck
 
+        deadline = time.time() + budget_seconds
+
         def pred(case):
+            if time.time() > deadline:
+                return False        # out of budget: stop making progress, keep the best case found so far
             rec = Recorder(prop.ID)
             rec.begin(case)
             check(case, rec)
@@ -419,10 +423,22 @@ def _run_jobs(prop, prop_name, tier, seed, t0):
                 prop.ID, o['what'], key, v['count']))
             continue
         job = jobs_by_name.get(v.get('job'))
-        if nshrunk < 3 and os.environ.get('VERIF_NO_SHRINK') != '1':
+        if (nshrunk < 3 and os.environ.get('VERIF_NO_SHRINK') != '1' and hasattr(prop, 'shrink')
+                and (job is None or job.kind != 'hyp')):
+            nshrunk += 1
+            try:
+                small = prop.shrink(from_json(v['case']), key, (job.check if job and job.check else prop.check),
+                                    time.time() + (25 if tier == 'quick' else 240))
+                js = to_json(small)
+                if len(js) < v['size']:
+                    v.update(case=js, size=len(js))
+            except Exception:       # noqa
+                pass
+        elif nshrunk < 3 and os.environ.get('VERIF_NO_SHRINK') != '1':
             nshrunk += 1
             sv = try_shrink(prop, job, (job.check if job and job.check else prop.check), key,
-                            600 if tier == 'quick' else 3000, derive_seed(seed, 'shrink', key))
+                            600 if tier == 'quick' else 3000, derive_seed(seed, 'shrink', key),
+                            budget_seconds=25 if tier == 'quick' else 240)
             if sv is not None and sv['size'] <= v['size']:
                 v.update(message=sv['message'], case=sv['case'], size=sv['size'])
         path = write_replay(prop.ID, key, v, seed, tier)
